@@ -1,0 +1,24 @@
+//go:build verif
+// +build verif
+
+package deflate
+
+import "sync"
+
+// number of blocks each huffmanOnly compressor has started to encode (verification hook)
+var (
+	verifHuffMu     sync.Mutex
+	verifHuffBlocks = map[*huffmanOnly]int{}
+)
+
+func (h *huffmanOnly) verifBlock() {
+	verifHuffMu.Lock()
+	verifHuffBlocks[h]++
+	verifHuffMu.Unlock()
+}
+
+func verifHuffCount(h *huffmanOnly) int {
+	verifHuffMu.Lock()
+	defer verifHuffMu.Unlock()
+	return verifHuffBlocks[h]
+}
